@@ -19,6 +19,19 @@ package obfs
 // against the implementation's deadline field: an incomplete message first seen at t must be gone after the first
 // sweep later than t + TTL whatever arrived in between (replayed duplicates, further chunks, frames with another
 // chunk count), and a source is refused only while it has 8 pending messages that are not yet due.
+//
+// SOURCES.  A source is a value of net.Addr.String() (computed here, on real net.Addr values built from the case's
+// address table: *net.UDPAddr / *net.TCPAddr / *net.IPAddr / *net.UnixAddr, a nil *net.UDPAddr, a custom type):
+// different String() = different sources, equal String() = one source, whatever else the values share or not.
+// The harness's record of the pending messages says WHOSE each entry is (the String() of the source whose datagram
+// opened it; the entry is identified by pointer, found under the source's String() when the table is keyed that
+// way and otherwise as the one entry not met before - so the clauses below do not depend on how the implementation
+// spells its keys).  Cross-source clauses, on the implementation alone: a packet comes out for source S only if
+// every one of its chunks was fed from S, and with the very net.Addr value of the datagram that completed it; every
+// complete set of chunks fed from one source comes out; a datagram from S never adds a chunk to, nor removes, a
+// pending message of another source (tables of up to 64 entries), and never opens a second pending message under
+// an id S already has pending; the budget of 8 is per String().  Two different messages fed from ONE source under
+// one message id are outside the hypothesis (the delivery clauses are silent for that id; the model is not).
 
 import (
 	"bytes"
@@ -951,19 +964,28 @@ func c14Seq(c c14Case, res map[string]any) {
 			// looking for the one entry not met before)
 			g.mu.Lock()
 			nowNs := int64(time.Since(t0))
+			splitWhy := ""
 			if len(tr) >= 2 && tr[0]&0x80 != 0 {
+				had := false
 				if b := byKey[hkey{srcStr, tr[1]}]; b != nil && live(b) {
 					b.replays++
 					b.lastRep = nowNs
-				} else if decodable {
+					had = true
+				}
+				if decodable {
 					ik := reassemblyKey{addr: srcStr, msgID: hk.id}
 					if e, there := g.reassembly[ik]; there {
 						if born[e] == nil {
 							record(ik, e, srcStr, hk.id, true)
 						}
 					} else if len(g.reassembly) > lenBefore || evicted {
+						// the table is not keyed by String(): the entry this datagram opened is the one not met before
 						for k, e := range g.reassembly {
 							if born[e] == nil {
+								if had {
+									splitWhy = "a chunk of source " + qsrc + " under message id " + strconv.Itoa(int(hk.id)) +
+										" opened a NEW pending message although that source already has one under that id (step " + strconv.Itoa(si) + ")"
+								}
 								record(k, e, srcStr, hk.id, true)
 								break
 							}
@@ -996,6 +1018,9 @@ func c14Seq(c c14Case, res map[string]any) {
 			sort.Strings(isoWhy)
 			for _, w := range isoWhy {
 				failAll(w)
+			}
+			if splitWhy != "" {
+				failAll(splitWhy)
 			}
 			if expectKey && !admitted {
 				failAll("source " + srcStr + " refused although it holds fewer than 8 pending messages that are not yet due (step " + strconv.Itoa(si) + ")")
